@@ -56,8 +56,13 @@ func DrawTwinSpecs(t *rapid.T, label string) []*Spec {
 	for _, i := range idx {
 		sp := &Spec{Kind: "schema", Group: label + "twins", ShareOnly: []string{"@key", "@item"}}
 		sp.Schema = lib.Spec{Schema: root, Types: append(append([]lib.Named{}, shared...), defs[i]...)}
-		sp.Docs = []string{`{"abc":1,"item":{"id":1}}`, `{"item":{"id":"x"}}`, `{"kk":1}`, `{}`}
+		sp.Docs = []string{`{"abc":1,"item":{"id":1}}`, `{"item":{"id":"x"}}`, `{"kk":1}`, `{}`, `{"item":{}}`}
 		out = append(out, sp)
+	}
+	// one of the two roots may be created with KeysAreOptionalByDefault: the shared type objects keep
+	// their own (strict) reading of unmarked keys whichever root uses them first
+	if rapid.Bool().Draw(t, label+"Lenient") {
+		out[rapid.IntRange(0, 1).Draw(t, label+"LenientWhich")].Schema.KeysOptional = true
 	}
 	return out
 }
@@ -66,6 +71,33 @@ func DrawTwinSpecs(t *rapid.T, label string) []*Spec {
 // 3 a root that inherits (allOf) from types which themselves refer to further types, 4 regex
 // types, 5 types wired to each other.
 func DrawSchemaSpec(t *rapid.T, label string, family int) *Spec {
+	sp := drawSchemaSpec(t, label, family)
+	// documents that are not JSON: valid ones cut short (mostly inside a literal) or with a byte spoilt
+	if len(sp.Docs) > 0 && rapid.IntRange(0, 2).Draw(t, label+"Malformed") == 0 {
+		for i, n := 0, rapid.IntRange(1, 2).Draw(t, label+"NMalformed"); i < n; i++ {
+			d := rapid.SampledFrom(sp.Docs).Draw(t, label+"MalformedOf")
+			if len(d) < 2 {
+				continue
+			}
+			cut := rapid.IntRange(1, len(d)-1).Draw(t, label+"Cut")
+			switch rapid.IntRange(0, 2).Draw(t, label+"MalformedKind") {
+			case 0:
+				sp.Docs = append(sp.Docs, d[:cut])
+			case 1:
+				sp.Docs = append(sp.Docs, d[:cut]+"!"+d[cut:])
+			default:
+				sp.Docs = append(sp.Docs, d[:cut]+"tru")
+			}
+		}
+	}
+	// a user comment after the last value of the root text (closed by the end of the text)
+	if family <= 3 && rapid.IntRange(0, 3).Draw(t, label+"TrailingComment") == 0 {
+		sp.Schema.Schema += rapid.SampledFrom([]string{" # the end", "\n# the end", "\n### the\nend ###", "  ###end###"}).Draw(t, label+"TrailingCommentText")
+	}
+	return sp
+}
+
+func drawSchemaSpec(t *rapid.T, label string, family int) *Spec {
 	sp := &Spec{Kind: "schema"}
 	switch family {
 	case 0:
@@ -151,6 +183,11 @@ func DrawSchemaSpec(t *rapid.T, label string, family int) *Spec {
 			sp.Schema = lib.Spec{Schema: rapid.SampledFrom([]string{"@t", "{\n  \"r\": @t\n}", "[@t]"}).Draw(t, label+"InnerRoot"),
 				Types: []lib.Named{{Name: "@t", Text: "{\n  \"k\": @x,\n  \"u\": @user // {optional: true}\n}", Inner: []lib.Named{x, user}}}}
 			sp.Docs = []string{`{"k":1}`, `{"k":"s","u":{"name":null,"it":2}}`, `{"r":{"k":1}}`, `[{"k":1}]`, `{"k":true}`}
+			if rapid.Bool().Draw(t, label+"InnerLate") {
+				// the same wiring, made after @t has been added to the root
+				sp.Schema.Types[0].InnerLate = true
+				sp.Schema.Types[0].Inner[1].InnerLate = rapid.Bool().Draw(t, label+"InnerLate2")
+			}
 		}
 		sp.Docs = append(sp.Docs, `{"k":1}`, `{"k":"s","u":{"name":null}}`, `{"r":{"k":1},"i":"x"}`, `1`, `{"k":true}`)
 	default:
